@@ -13,7 +13,8 @@ def generate(rng, tier):
     n = 1500 if tier == "quick" else 30000
     cases = []
     fixed = ["-foo-1.0", "--1.0nb2", "--x-y-3", "-1.0", "a-", "mktool-1.3.2nb2", "mktool-1.3.2nb", "mktool-1.3-2", "mktool", "1.0nb2", "", "-", "--", "a-", "-1", "nb-nb", "a-nb1nb2", "a-1nb+5", "a-1nb-5",
-             "a-1nb99999999999999999999", "a-1nb007", "a-1nbnb3", "a-1nnb4", "é-1nb2", "a-1NB3", "a-1nb3x", "a-nb", "foo-bar-1.0nb12"]
+             "a-1nb99999999999999999999", "a-1nb007", "a-1nbnb3", "a-1nnb4", "é-1nb2", "a-1NB3", "a-1nb3x", "a-nb", "foo-bar-1.0nb12",
+             "mysql-client-5.7.44nb1", "py-setuptools-68.0nb1", "a-b-c-1", "libnbcompat-20230904", "nbpatch-1.0", "café-1", "日本-1.22", "é-1", "ab-é", "éé-12"]
     names = list(fixed)
     for _ in range(n):
         parts = [rng.choice(["", "a", "foo", "nb", "py39", "é", "1.0", "x11nb3"]) for _ in range(rng.randint(0, 3))]
@@ -37,6 +38,13 @@ def generate(rng, tier):
                 stem = ver.rsplit("nb", 1)[0] if "nb" in ver else ver
                 for op in (">=", ">", "<="):
                     cases.append(Case("dewey.match", [enc(base + op + stem + "nb%d" % k), enc(nm)], meta={"n": nm, "probe": True}))
+                # the matcher splits the name at its LAST '-': a pattern whose base is only a '-'-delimited prefix of the
+                # PKGBASE never matches, whatever the glued-on rest compares like
+                for j, ch in enumerate(base):
+                    if ch == "-" and j > 0:
+                        for bound in (">=0", "<99999", ">=" + stem):
+                            cases.append(Case("dewey.match", [enc(base[:j] + bound), enc(nm)], meta={"n": nm, "probe": True}))
+                            cases.append(Case("pat.match", [enc(base[:j] + bound), enc(nm)], meta={"n": nm, "probe": True}))
     return cases
 
 
